@@ -1583,17 +1583,17 @@ Proof.
   - apply (isrep_iff cfg) in Er. unfold step_replica in Hs.
     destruct (r_pc (rl s p)) eqn:Epc;
       try (assert (Ap : alive s p) by (split; [exact Er | unfold pcr; rewrite Epc; reflexivity])).
-    + exists w. eapply invB_replicaLoop; eauto.
-    + exists w. eapply invB_syncPrimary; eauto.
-    + exists w. eapply invB_sndSyncReqLoop; eauto.
-    + exists w. eapply invB_rcvSyncRespLoop; eauto.
-    + exists w. eapply invB_rcvMsg; eauto.
-    + exists w. eapply invB_handleBackup; eauto.
-    + eapply invB_handlePrimary; eauto.
-    + exists w. eapply invB_sndReplicaReqLoop; eauto.
-    + exists w. eapply invB_rcvReplicaRespLoop; eauto.
-    + exists w. eapply invB_sndResp; eauto.
-    + exists w. eapply invB_failLabel; eauto.
+    + exists w. eapply (invB_replicaLoop cfg w s p ch s'); eauto.
+    + exists w. eapply (invB_syncPrimary cfg w s p ch s'); eauto.
+    + exists w. eapply (invB_sndSyncReqLoop cfg w s p ch s'); eauto.
+    + exists w. eapply (invB_rcvSyncRespLoop w s p ch s'); eauto.
+    + exists w. eapply (invB_rcvMsg cfg w s p ch s'); eauto.
+    + exists w. eapply (invB_handleBackup w s p ch s'); eauto.
+    + eapply (invB_handlePrimary w s p ch s'); eauto.
+    + exists w. eapply (invB_sndReplicaReqLoop cfg w s p ch s'); eauto.
+    + exists w. eapply (invB_rcvReplicaRespLoop w s p ch s'); eauto.
+    + exists w. eapply (invB_sndResp cfg w s p ch s'); eauto.
+    + exists w. eapply (invB_failLabel w s p ch s'); eauto.
     + discriminate.
   - destruct (is_client cfg p) eqn:Ec; [|discriminate]. exists w.
     apply (invB_client_step cfg w s p ch s' IA IB); [apply is_client_true in Ec; lia | exact Hs].
@@ -1650,4 +1650,11 @@ Proof.
   intros cfg input evs s Hin He. apply invC_consistency.
   apply (invC_reachable cfg input s Hin).
   eapply exec_reachable; [apply reach_init | exact He].
+Qed.
+
+Lemma consistency_run_skip_lemma : forall cfg input evs,
+  Forall input_ok input -> ConsistencyOK cfg (run_skip cfg (init cfg input) evs).
+Proof.
+  intros cfg input evs Hin. apply (invC_consistency cfg).
+  apply (invC_reachable cfg input _ Hin). apply run_skip_reachable. apply reach_init.
 Qed.
